@@ -67,6 +67,34 @@ class Counter:
         return 'private ran'
 
 
+class Odd:
+    """a referent whose methods hand back things that cannot be sent"""
+
+    def __init__(self):
+        self.calls = 0
+
+    def ret(self, what):
+        self.calls += 1
+        if what == 'lock':
+            import threading
+            return threading.Lock()
+        if what == 'gen':
+            return (i for i in range(3))
+        if what == 'local':
+            class Local:
+                pass
+            return Local()
+        if what == 'lambda':
+            return lambda: 0
+        if what == 'raise_unpicklable':
+            import threading
+            raise HelperError('holding a lock', threading.Lock())
+        return ('plain', self.calls)
+
+    def count(self):
+        return self.calls
+
+
 _SINGLETON = []
 
 
@@ -80,6 +108,7 @@ class HManager(managers.SyncManager):
 
 HManager.register('Counter', Counter, method_to_typeid={'make_sub': 'SubRet'})
 HManager.register('Sub', Sub)
+HManager.register('Odd', Odd)
 HManager.register('SubRet', create_method=False)
 HManager.register('Singleton', get_singleton, managers.ListProxy)
 
